@@ -13,7 +13,7 @@ import z3
 from symx.api import Harness, Raised, register
 
 from .c12 import flat, full
-from .common import declare_cells, declare_edges, nested, zsum
+from .common import declare_cells, declare_edges, nested, zsum, product_indices
 
 OPS_1D = [
     # (name, expected) expected: "ok" | exception name | "maybe" (depends on the symbolic state, decided in the oracle)
@@ -386,7 +386,7 @@ class C18Collection(_Base):
     bounds_doc = "HistogramCollection construction / add with members of different binnings: refused, collection and members unchanged"
 
     def instances(self, tier):
-        for op in ("init_diff", "add_diff", "add_same", "init_empty"):
+        for op in ("init_diff", "add_diff", "add_same", "init_empty", "empty_binning_add_diff", "empty_binning_add_same"):
             yield f"col-{op}", dict(op=op)
 
     def declare(self, cx, p):
@@ -409,6 +409,11 @@ class C18Collection(_Base):
         if op == "init_empty":
             r = E.attempt(HC)
             return {"outcome": r.name if isinstance(r, Raised) else "ok", "a": full(E, a), "n": None}
+        if op.startswith("empty_binning"):
+            # a collection created empty, with the binning its members must have
+            col = HC(binning=a.binning)
+            r = E.attempt(col.add, b_diff if op.endswith("diff") else b_same)
+            return {"outcome": r.name if isinstance(r, Raised) else "ok", "a": full(E, a), "n": len(col)}
         col = HC(a)
         r = E.attempt(col.add, b_diff if op == "add_diff" else b_same)
         return {"outcome": r.name if isinstance(r, Raised) else "ok", "a": full(E, a), "n": len(col)}
@@ -418,10 +423,96 @@ class C18Collection(_Base):
         if obs.get("raised") is not None:
             return
         op = p["op"]
-        if op in ("init_diff", "init_empty", "add_diff"):
+        if op in ("init_diff", "init_empty", "add_diff", "empty_binning_add_diff"):
             yield "refused", obs["outcome"] == "ValueError"
             if op == "add_diff":
                 yield "collection_unchanged", obs["n"] == 1
+            if op == "empty_binning_add_diff":
+                yield "collection_unchanged", obs["n"] == 0
+        elif op == "empty_binning_add_same":
+            yield "accepted", obs["outcome"] == "ok" and obs["n"] == 1
         else:
             yield "accepted", obs["outcome"] == "ok" and obs["n"] == 2
         yield "member_unchanged", z3.And([cx.eq(obs["a"]["freq"][j], cx.t(x["f"][j])) for j in range(2)])
+
+
+@register
+class C18Adaptive2D(_Base):
+    group = "adaptive2d"
+    bounds_doc = "adaptive fixed-width 2D histogram (1x2 / 2x1 bins, width 1) in a symbolic state x one fill / fill_n of a symbolic point within 2 widths of the range (growth along either axis), or an invalid fill (wrong number of coordinates, wrong weights shape): well-formed afterwards, every earlier cell keeps its interval and content, a refused call changes nothing"
+
+    def instances(self, tier):
+        for shape in ((1, 2), (2, 1)):
+            for op in ("fill", "fill_n", "fill_wrong_len", "filln_wshape"):
+                yield f"2da-S{shape[0]}x{shape[1]}-{op}", dict(shape=list(shape), op=op)
+
+    def declare(self, cx, p):
+        shape = p["shape"]
+        x = {"f": declare_cells(cx, "f", shape, "int"), "q": declare_cells(cx, "q", shape, "int"), "v": [cx.pyfloat("vx"), cx.pyfloat("vy")], "w": cx.pyint("w", 0, 3)}
+        if cx.sym:
+            cx.assume(*[z3.And(cx.t(x["v"][k]) >= -2, cx.t(x["v"][k]) < shape[k] + 2) for k in range(2)])
+        return x
+
+    def drive(self, E, p, x):
+        np = E.np
+        H2 = E.mod("physt.histogram_nd").Histogram2D
+        FWB = E.mod("physt.binnings").FixedWidthBinning
+        shape = p["shape"]
+        h = H2([FWB(bin_width=1.0, bin_count=shape[k], bin_times_min=0, adaptive=True) for k in range(2)], np.asarray(nested(x["f"], shape), dtype=int),
+               errors2=np.asarray(nested(x["q"], shape), dtype=int))
+        v, w = x["v"], x["w"]
+        thunk = {"fill": lambda: h.fill([v[0], v[1]], w), "fill_n": lambda: h.fill_n(np.asarray([[v[0], v[1]]]), weights=np.asarray([w])),
+                 "fill_wrong_len": lambda: h.fill([v[0], v[1], v[0]]), "filln_wshape": lambda: h.fill_n(np.asarray([[v[0], v[1]]]), weights=np.asarray([1, 2]))}[p["op"]]
+        before = full(E, h)
+        r = E.attempt(thunk)
+        return {"steps": [{"op": p["op"], "expect": "ok" if p["op"] in ("fill", "fill_n") else "ValueError", "outcome": r.name if isinstance(r, Raised) else "ok", "before": before, "after": full(E, h),
+                           "other_before": None, "other_after": None}]}
+
+    def oracle(self, cx, p, x, obs):
+        yield "no_harness_exception", obs.get("raised") is None
+        if obs.get("raised") is not None:
+            return
+        st = obs["steps"][0]
+        yield "wellformed", self._wellformed(cx, st["after"])
+        yield "outcome", (st["outcome"] == "ok") if st["expect"] == "ok" else (st["outcome"] in ("ValueError", "TypeError", "IndexError"))
+        a, b = st["before"], st["after"]
+        shape = p["shape"]
+        if st["outcome"] != "ok":
+            # the bins may already have grown; every old cell keeps its interval, content and squared error, every other cell is empty
+            ok = len(b["bins"]) == 2 and b["fshape"] == [len(b["bins"][0]), len(b["bins"][1])] == b["eshape"]
+            yield "shape_consistent_after_raise", ok
+            if ok:
+                conj = []
+                old = {}
+                for i, (l0, r0) in enumerate(a["bins"][0]):
+                    for j, (l1, r1) in enumerate(a["bins"][1]):
+                        old[(i, j)] = (cx.t(l0), cx.t(r0), cx.t(l1), cx.t(r1), a["freq"][i][j], a["err2"][i][j])
+                for (l0, r0, l1, r1, fo, eo) in old.values():
+                    conj.append(z3.Or([z3.And(cx.t(m0) == l0, cx.t(n0) == r0, cx.t(m1) == l1, cx.t(n1) == r1, self._same_num(cx, b["freq"][bi][bj], fo), self._same_num(cx, b["err2"][bi][bj], eo))
+                                       for bi, (m0, n0) in enumerate(b["bins"][0]) for bj, (m1, n1) in enumerate(b["bins"][1])]))
+                for bi, (m0, n0) in enumerate(b["bins"][0]):
+                    for bj, (m1, n1) in enumerate(b["bins"][1]):
+                        is_old = z3.Or([z3.And(cx.t(m0) == l0, cx.t(m1) == l1) for (l0, r0, l1, r1, fo, eo) in old.values()])
+                        conj.append(z3.Or(is_old, z3.And(self._same_num(cx, b["freq"][bi][bj], 0), self._same_num(cx, b["err2"][bi][bj], 0))))
+                conj += [self._same_num(cx, u, v_) for u, v_ in zip(flat(a["missed"]), flat(b["missed"]))]
+                yield "unchanged_after_raise", z3.And(conj)
+            return
+        # every old cell [i, i+1) x [j, j+1) still exists and holds its old content (+ the weight if the point fell into it)
+        if len(b["bins"]) != 2 or b["fshape"] != [len(b["bins"][0]), len(b["bins"][1])]:
+            yield "shape_consistent", False
+            return
+        v = [cx.t(t) for t in x["v"]]
+        w = cx.t(x["w"])
+        idxs = product_indices(shape)
+        f = {idx: cx.t(t) for idx, t in zip(idxs, x["f"])}
+        conj = []
+        for (i, j), old in f.items():
+            hits = []
+            for bi, (l0, r0) in enumerate(b["bins"][0]):
+                for bj, (l1, r1) in enumerate(b["bins"][1]):
+                    inside = z3.And(v[0] >= i, v[0] < i + 1, v[1] >= j, v[1] < j + 1)
+                    hits.append(z3.And(cx.t(l0) == i, cx.t(r0) == i + 1, cx.t(l1) == j, cx.t(r1) == j + 1, cx.t(b["freq"][bi][bj]) == old + z3.If(inside, w, 0)))
+            conj.append(z3.Or(hits))
+        yield "old_cells_keep_interval_and_content", z3.And(conj)
+        yield "total", zsum([cx.t(t) for row in b["freq"] for t in row]) == zsum(f.values()) + w
+        yield "nothing_missed", z3.And([cx.eq(m, 0) for m in flat(b["missed"])])
